@@ -160,6 +160,9 @@ def mirror_hidden_in_the_product(ck, tmp):
     def R(a, cx, cy):
         c_, s_ = math.cos(math.radians(a)), math.sin(math.radians(a))
         return T(1, 0, 0, 1, cx, cy).dot(T(c_, s_, -s_, c_, 0, 0)).dot(T(1, 0, 0, 1, -cx, -cy))
+    # transforms that differ from the identity in the sixth digit are transforms
+    chains += [[('scale(1.000005)', T(1.000005, 0, 0, 1.000005, 0, 0))], [('scale(1.000004)', T(1.000004, 0, 0, 1.000004, 0, 0)), ('scale(0.999997)', T(0.999997, 0, 0, 0.999997, 0, 0))],
+               [('translate(0.00002,0)', T(1, 0, 0, 1, 0.00002, 0))], [('matrix(1 0.000006 0 1 0 0)', T(1, 0.000006, 0, 1, 0, 0))]]
     chains += [[('rotate(90 4 0)', R(90, 4, 0))], [('rotate(-30, 0, 5)', R(-30, 0, 5))], [('rotate(45 3 2)', R(45, 3, 2))], [('rotate(120,0,0)', R(120, 0, 0))],
                [('translate(2,0)', T(1, 0, 0, 1, 2, 0)), ('rotate(60 0 -7)', R(60, 0, -7))], [('rotate(10 6 0) scale(2)', R(10, 6, 0).dot(T(2, 0, 0, 2, 0, 0)))]]
     ref = list(sp.parse_path(sm.PATH_D[1]))
@@ -185,6 +188,34 @@ def mirror_hidden_in_the_product(ck, tmp):
             if diff:
                 ck.disagree(key='%s/geometry/path/arc/mirror-hidden-in-the-product' % who, site='svgpathtools/path.py:transform (Arc)',
                             what='%s of %s: %s' % (who, text, diff), case={'svg': text}, expected='the arc path mapped by %s' % M6, observed=diff, driver='flatten')
+
+
+def string_entry_point_flags(ck):
+    """svgstr2paths is svg2paths on a string: the conversion flags mean the same elements"""
+    text = ('<svg xmlns="%s" version="1.1"><polyline id="pl" points="0,0 4,0 4,3"/><polygon id="pg" points="10,0 14,0 12,3"/><line id="ln" x1="0" y1="9" x2="5" y2="9"/>'
+            '<rect id="r" x="1" y="1" width="2" height="2"/><circle id="c" cx="20" cy="20" r="2"/><ellipse id="e" cx="30" cy="20" rx="3" ry="1"/><path id="p" d="M0,20 L5,25"/></svg>') % sm.NS
+    flags = ['convert_circles_to_paths', 'convert_ellipses_to_paths', 'convert_lines_to_paths', 'convert_polylines_to_paths', 'convert_polygons_to_paths', 'convert_rectangles_to_paths']
+    starts = {'convert_polylines_to_paths': 0j, 'convert_polygons_to_paths': 10 + 0j, 'convert_lines_to_paths': 9j, 'convert_rectangles_to_paths': 1 + 1j}
+    import itertools, tempfile
+    fn = os.path.join(tempfile.mkdtemp(prefix='c17s_'), 'flags.svg')
+    with open(fn, 'w') as f:
+        f.write(text)
+    try:
+        for off in [()] + [(f_,) for f_ in flags] + [('convert_polylines_to_paths', 'convert_lines_to_paths'), ('convert_polygons_to_paths', 'convert_circles_to_paths')]:
+            kw = {f_: (f_ not in off) for f_ in flags}
+            ck.case(fp=('svgstr2paths-flags', off), nontrivial=True)
+            try:
+                a_ = sp.svgstr2paths(text, **kw)[0]
+                b_ = sp.svg2paths(fn, **kw)[0]
+                key_ = lambda L_: sorted((len(p_), round(p_[0].start.real, 6), round(p_[0].start.imag, 6)) for p_ in L_)      # noqa
+                ok = key_(a_) == key_(b_) and len(a_) == 7 - len(off) and all(not any(abs(p_[0].start - starts[f_]) <= 1e-9 for p_ in a_) for f_ in off if f_ in starts)
+            except Exception as e:      # noqa
+                ok, a_, b_ = False, e, None
+            if not ok:
+                ck.disagree(key='svgstr2paths/conversion-flags', site='svgpathtools/svg_to_paths.py:svgstr2paths', what='flags off %s: svgstr2paths gives %r, svg2paths on the same text as a file %r' % (off, a_, b_), case={'off': list(off)},
+                            expected='the same paths, the switched-off kinds missing', observed=repr(a_), driver='flatten')
+    finally:
+        shutil.rmtree(os.path.dirname(fn), ignore_errors=True)
 
 
 def foreign_namespace_elements(ck, tmp):
@@ -269,6 +300,7 @@ def run(ck):
         ck.count('documents', st['n'])
         mirror_hidden_in_the_product(ck, tmp)
         foreign_namespace_elements(ck, tmp)
+        string_entry_point_flags(ck)
     finally:
         shutil.rmtree(tmp, ignore_errors=True)
 
